@@ -9,6 +9,7 @@ Open Scope Z_scope.
 
 Inductive c10case :=
 | C10Run (c : svcase)
+| C10Spec (c : svcase)       (* a scenario outside the model (request deadlines): judged by the property predicates only *)
 | C10Dead (wedged : bool).   (* the server process died (false) or never became quiescent again (true) in this scenario *)
 
 Definition invoked_of (l : list sev) : list Z :=
@@ -23,6 +24,7 @@ Fixpoint walk (observed : list obs) (inv ret : list Z) : list nat :=
   match observed with
   | [] => []
   | o :: rest =>
+      if unobserved o then walk rest inv ret else
       let inv' := inv ++ invoked_of (o_events o) in
       let ret' := ret ++ returned_of (o_events o) in
       (* 3: at the return of Serve no stream handler goroutine is left *)
@@ -32,6 +34,9 @@ Fixpoint walk (observed : list obs) (inv ret : list Z) : list nat :=
       (* 5: whenever Serve has returned and every handler started so far has returned, nothing of the connection is alive *)
       ++ (if o_serve o && forallb (fun h => memZ h ret') inv'
              && negb ((o_writer o =? 0) && (o_workers o =? 0) && (o_hs o =? 0)) then [5%nat] else [])
+      (* 3: no handler is started once Serve has returned (for an envelope read before the return or after) *)
+      ++ (if o_serve o && negb (has_serve_ret (o_events o)) && negb (match invoked_of (o_events o) with [] => true | _ => false end)
+          then [3%nat] else [])
       (* 3: Serve's return is reported by both the event and the flag *)
       ++ (if has_serve_ret (o_events o) && negb (o_serve o) then [3%nat] else [])
       ++ walk rest inv' ret'
@@ -67,6 +72,7 @@ Definition check_case_f (fuel : nat) (c : c10case) : list nat :=
       | [] => check_agree_f fuel sc
       | rs => rs
       end
+  | C10Spec sc => nodup Nat.eq_dec (match sc with CSrv _ observed => walk observed [] [] end ++ final_checks sc)
   | C10Dead wedged => if wedged then [8%nat] else [7%nat]
   end.
 
